@@ -487,6 +487,6 @@ def V_(x):
     return z3.IntVal(x) if isinstance(x, int) else x
 
 
-CONTRACTS += [GetCoefficients(1), GetCoefficients(2)]
-ASSUMPTIONS += ["get_coefficients_to_index_set verified for dim in {1,2} (stencil loops unrolled; index set arbitrary); COEFF is the fold of the Lean `coeff` summand over the set "
+CONTRACTS += [GetCoefficients(1), GetCoefficients(2), GetCoefficients(3)]
+ASSUMPTIONS += ["get_coefficients_to_index_set verified for dim in {1,2,3} (stencil loops unrolled; index set arbitrary); COEFF is the fold of the Lean `coeff` summand over the set "
                 "(well defined because the sum is commutative; iteration order arbitrary, A-ITER); completeness of the returned list (every non-zero coefficient appears) is layer B"]
